@@ -80,7 +80,7 @@ type ed25519Key struct {
 }
 
 func (key *ed25519Key) Sign(payload []byte) (signature []byte, err error) {
-	if !key.canSign {
+	if key.priv == nil || !key.canSign {
 		return nil, sig.ErrSignUnavailable
 	}
 	signature = ed25519.Sign(key.priv, payload)
@@ -105,7 +105,7 @@ type ed448Key struct {
 }
 
 func (key *ed448Key) Sign(payload []byte) (signature []byte, err error) {
-	if !key.canSign {
+	if key.priv == nil || !key.canSign {
 		return nil, sig.ErrSignUnavailable
 	}
 	signature = ed448.Sign(key.priv, payload)
